@@ -52,8 +52,10 @@ def bounds(tier):
     return dict(
         max_abs_exponent=2,
         k_pairs=2 if q else 4,
+        k_all_magnitudes=2 if q else 3,  # vectors above this cost are converted with the magnitude 2.5e-7 only
         k_triples=2 if q else 3,
-        k_registry=2 if q else 3,
+        k_registry_all_spellings=1 if q else 2,
+        k_registry=2 if q else 3,  # above k_registry_all_spellings: one spelling per (registry, vector), rotating through all
         k_containers=2 if q else 3,
         k_backend=2 if q else 3,
         magnitudes=MAGS,
@@ -75,12 +77,12 @@ def chunks(tier):
     JB = 4 if q else 12
     out += [("B", j, JB) for j in range(JB)]
     JL = 40 if q else 120
-    out += [("L", b["k_pairs"], b["k_triples"], j, JL) for j in range(JL)]
+    out += [("L", b["k_pairs"], b["k_triples"], b["k_all_magnitudes"], j, JL) for j in range(JL)]
     JC = 24 if q else 60
     out += [("C", b["k_containers"], j, JC) for j in range(JC)]
     nreg = b["registries"]
     step = 6 if q else 3
-    out += [("R", b["k_registry"], lo, min(nreg, lo + step)) for lo in range(0, nreg, step)]
+    out += [("R", b["k_registry"], b["k_registry_all_spellings"], lo, min(nreg, lo + step)) for lo in range(0, nreg, step)]
     return out
 
 
@@ -177,7 +179,7 @@ def op_conv(res, qs, ts, mag):
         res.violation("C09|to_unitless|scalar|wrong-ratio", "to_unitless(%s, %s) = %r, exact ratio gives %r" % (case["q"], case["t"], got, ref), case, got, ref)
         return
     res.outcomes["conv-ok|" + _ratio_class(ratio)] += 1
-    res.extra["max_rel_err"] = max(res.extra.get("max_rel_err", 0.0), abs(float(got) - ref) / abs(ref))
+    res.extra["max_rel_err_in_1e-16"] = max(res.extra.get("max_rel_err_in_1e-16", 0.0), abs(float(got) - ref) / abs(ref) * 1e16)
     # multiplying back by the target unit reproduces the original quantity (observed through quantities only)
     m, e = A.si(got * t)
     res.evaluations += 1
@@ -342,7 +344,7 @@ def op_incompat(res, qs, special, ts):
             res.violation("C09|rescale|incompatible-target|returned-a-quantity", "rescale(%s, %s) returned %r" % (case["q"], tdesc, got), case, repr(got), "exception")
 
 
-def _layer_L(res, kp, kt, j, J):
+def _layer_L(res, kp, kt, km, j, J):
     vecs = [e for e in A.vectors(kp) if any(e)]
     for idx, e in enumerate(vecs):
         if idx % J != j:
@@ -354,7 +356,7 @@ def _layer_L(res, kp, kt, j, J):
             _count_units(res, qs)
             op_dim(res, qs, "3")
             for ts in sps:
-                for mag in MAGS:
+                for mag in (MAGS if cost <= km else MAGS[2:]):
                     op_conv(res, qs, ts, mag)
             for special, ts in _incompat_targets(e, qs):
                 op_incompat(res, qs, special, ts)
@@ -477,13 +479,18 @@ def _layer_Z(res):
 
 
 # --------------------------------------------------------------------------------------------- layer R / D
+_REG = {}
+
+
 def op_reg(res, choice, qs, mag):
     """default unit and magnitude of a quantity in a base registry"""
     cu = E()["cu"]
     qs = _sp(qs)
     choice = tuple(choice)
-    reg = A.registry_real(choice, E()["u"])
-    regm = A.registry_model(choice)
+    if choice not in _REG:
+        _REG.clear()
+        _REG[choice] = (A.registry_real(choice, E()["u"]), A.registry_model(choice))
+    reg, regm = _REG[choice]
     qm = A.model_of(qs)
     q = float(mag) * _real(qs) if qs else float(mag)
     dm = A.in_registry(qm.e, regm)
@@ -516,14 +523,19 @@ def op_reg(res, choice, qs, mag):
         res.outcomes["unitless_in_registry-ok|" + _ratio_class(qm.f / dm.f)] += 1
 
 
-def _layer_R(res, k, lo, hi):
+def _layer_R(res, k, kall, lo, hi):
     regs = A.registries()
     vecs = A.vectors(k)
-    for choice in regs[lo:hi]:
+    for ridx in range(lo, hi):
+        choice = regs[ridx]
         for i, c in enumerate(choice):
             res.symbols["reg:%s=%s" % (A.DIMS[i], A.UNITS[A.DIMS[i]][c][0])] += 1
         for e in vecs:
-            for qs in (A.spellings(e) if any(e) else [()]):
+            sps = A.spellings(e) if any(e) else [()]
+            if sum(map(abs, e)) > kall:
+                sps = [sps[ridx % len(sps)]]
+            for qs in sps:
+                _count_units(res, qs)
                 op_reg(res, choice, qs, "2.5e-7")
     res.sample(dict(layer="R", registries=[lo, hi], vectors=len(vecs)))
 
